@@ -157,7 +157,8 @@ void RadioTap::dbm_noise(int8_t new_dbm_noise) {
 }
 
 void RadioTap::signal_quality(uint8_t new_signal_quality) {
-    add_integral_option(*this, LOCK_QUALITY, new_signal_quality);
+    // LOCK_QUALITY is a 16 bit field
+    add_integral_option(*this, LOCK_QUALITY, static_cast<uint16_t>(new_signal_quality));
 }
 
 void RadioTap::data_retries(uint8_t new_data_retries) {
